@@ -5,6 +5,7 @@ import (
 	"go/ast"
 	"go/token"
 	"sort"
+	"strconv"
 	"strings"
 )
 
@@ -241,6 +242,74 @@ func init() {
 		}
 		out += "]\n"
 		out += fmt.Sprintf("\n/-- the Filenames case of Info.Load skips empty names before `name[1:]` -/\ndef filenamesGuardsEmpty : Bool := %v\n", guardsEmpty)
+
+		// The file name loop of Info.Load (`for j := range basename`): is a
+		// deferred function calling recover() installed before it, and does the
+		// Filenames case record the names that do NOT match filePatterns?
+		underRecover := false
+		seenLoop := false
+		for _, st := range load.Body.List {
+			switch x := st.(type) {
+			case *ast.DeferStmt:
+				if seenLoop {
+					continue
+				}
+				ast.Inspect(x, func(n ast.Node) bool {
+					if c, ok := n.(*ast.CallExpr); ok {
+						if id, ok := c.Fun.(*ast.Ident); ok && id.Name == "recover" {
+							underRecover = true
+						}
+					}
+					return true
+				})
+			case *ast.RangeStmt:
+				if exprString(x.X) == "basename" {
+					seenLoop = true
+				}
+			}
+		}
+		if !seenLoop {
+			return "", fmt.Errorf("Info.Load: the loop over basename was not found")
+		}
+		out += fmt.Sprintf("\n/-- the loop over basename in Info.Load runs after a deferred recover() -/\ndef fileLoopUnderRecover : Bool := %v\n", underRecover)
+		// filePatterns: the list of alternatives joined with `|`
+		var pats []string
+		for _, d := range nf.Decls {
+			fd, ok := d.(*ast.FuncDecl)
+			if !ok || fd.Name.Name != "init" || fd.Recv != nil {
+				continue
+			}
+			ast.Inspect(fd.Body, func(n ast.Node) bool {
+				as, ok := n.(*ast.AssignStmt)
+				if !ok || len(as.Lhs) != 1 || len(as.Rhs) != 1 || exprString(as.Lhs[0]) != "pat" {
+					return true
+				}
+				cl, ok := as.Rhs[0].(*ast.CompositeLit)
+				if !ok {
+					return true
+				}
+				for _, el := range cl.Elts {
+					if bl, ok := el.(*ast.BasicLit); ok && bl.Kind == token.STRING {
+						if v, err := strconv.Unquote(bl.Value); err == nil {
+							pats = append(pats, v)
+						}
+					}
+				}
+				return false
+			})
+		}
+		if len(pats) == 0 {
+			return "", fmt.Errorf("filePatterns: the pattern list was not found")
+		}
+		out += "\n/-- the alternatives of the filePatterns regular expression, in source order -/\ndef filePatterns : List String := [\n"
+		for i, p := range pats {
+			sep := ","
+			if i == len(pats)-1 {
+				sep = ""
+			}
+			out += "  " + LeanString(p) + sep + "\n"
+		}
+		out += "]\n"
 		return out + Footer("Rpm"), nil
 	}})
 }
